@@ -41,7 +41,26 @@ CLAIMED = {
         note=UNIFY_NOTE),
 }
 
+MAKE_NOTE = ("Trusted: TLC, the node table in tools/gen_nodes.py (161 factories, written from the interface documentation; "
+             "the generated spec/IprNodesTable.tla is what TLC reads), harness/make.cxx + generated dispatch. Two operands per "
+             "parameter sort; expr_factory::make_annotation and Lexicon::make_token are declared but undefined and not exercised; "
+             "unified get_* constructors are covered under C01/C04, declarations under C07, regions under C12.")
 CLAIMED.update({
+    "C02": dict(
+        text="IprMake.tla interprets the node table: for every factory, which argument comes back under which accessor "
+             "(named aliases included), what reads as absent, and how settable links change that. TLC emits the complete sweep "
+             "(every factory x every combination of candidate operands and enumerators x subsets of links) with the expected "
+             "observation after each step; the replayer calls the real factory and reads every accessor. Random histories "
+             "where created nodes become operands are validated by the trace spec, with re-observation of earlier nodes.",
+        ref="DESIGN.md §3 C02", tech="TLA+ IprMake + generated node table: complete factory sweep from TLC replayed + trace validation",
+        note=MAKE_NOTE),
+    "C09": dict(
+        text="Type rules of the node table (given, given-if-supplied, fixed by kind, borrowed from an operand or a link, product "
+             "of the current elements, never) are evaluated by IprMake.tla for every step of the C02 sweep and of the random "
+             "histories and compared with type() of the real node; built-in/compound types and constants are covered by the "
+             "`ty` field of IprUnify, scope/parameter-list products by IprScopes.",
+        ref="DESIGN.md §3 C09", tech="TLA+ IprMake type rules: complete factory sweep replayed + trace validation",
+        note=MAKE_NOTE),
     "C03": dict(
         text="IprStrings.tla (R-level): per-Lexicon map word -> String, immutable content, empty and reserved words shared "
              "process-wide. TLC enumerates every sequence of 4 (quick) / 5 (thorough) intern requests over two Lexicons and 8 "
